@@ -237,14 +237,22 @@ pub fn scan<V: Vary>(
 
 #[inline]
 fn round_up_to_half(x: f32) -> f32 {
+    // Note: not `floor(x + 0.5) + 0.5`, because the sum may round *up* to
+    // an integer when x is just below a pixel center (0.49999997 + 0.5 is
+    // 1.0 in f32), which would skip a center that is not actually passed.
     #[cfg(feature = "fp")]
-    {
+    let floor = {
         use crate::math::float::f32;
-        f32::floor(x + 0.5) + 0.5
-    }
+        f32::floor(x)
+    };
     #[cfg(not(feature = "fp"))]
-    {
-        (x + 0.5) as i32 as f32 + 0.5
+    let floor = x as i32 as f32;
+
+    // `x - floor` is exact
+    if x - floor < 0.5 {
+        floor + 0.5
+    } else {
+        floor + 1.5
     }
 }
 
